@@ -47,6 +47,8 @@ func main() {
 		cmdRun(os.Args[2:])
 	case "replay":
 		cmdReplay(os.Args[2:])
+	case "firstop":
+		cmdFirstOp()
 	default:
 		fmt.Fprintln(os.Stderr, "unknown command", os.Args[1])
 		os.Exit(2)
@@ -71,6 +73,7 @@ func cmdRun(args []string) {
 	trace := fs.Bool("trace", false, "")
 	_ = fs.Parse(args)
 	loadKnown(a.Known)
+	fixtureRoot = a.RepoRoot
 	start := time.Now()
 	b := newBatch(a.Engine, a.Property, a.Seed, a.Shard)
 	b.trace = *trace
@@ -108,7 +111,11 @@ func runOne(b *BatchResult, a *runArgs, run uint64) {
 		}
 		renderRunOne(b, a.Property, a.Seed, run, n)
 	case "puresim":
-		pureRunOne(b, a.Property, a.Seed, run, a.Race)
+		every := uint64(40) // quick: a few real process restarts
+		if a.Tier == "thorough" {
+			every = 10
+		}
+		pureRunOne(b, a.Property, a.Seed, run, a.Race, every)
 	case "mergesim":
 		n := 6
 		if a.Tier == "thorough" {
